@@ -22,9 +22,8 @@ func eqInts(a, b []int) bool {
 
 // CheckDelivery checks the clauses of C19 that are visible in what the consumers received:
 // every item exactly once per output, per-input order (whole order for fmap and dup), close observed.
-// pending: the witness class "dupchan-order" — a slice-of-channels Join given the SAME channel at several
-// positions delivers every item of that channel exactly once but not in order (two forwarders share it);
-// reported separately until it is decided whether duplicated inputs are within the property.
+// A channel given at several positions (Config.Slice) is one input: its items exactly once, in order (finding F64,
+// repaired: the join listens once to a channel that is given twice).
 func CheckDelivery(c Config, o *Outcome) (bad, pending []string) {
 	switch c.Sys {
 	case "fmap":
@@ -65,10 +64,9 @@ func CheckDelivery(c Config, o *Outcome) (bad, pending []string) {
 				srt := append([]int{}, per[i]...)
 				sort.Ints(srt)
 				if c.Duplicated(i) && eqInts(srt, c.Items[i]) {
-					pending = append(pending, fmt.Sprintf("input %d occurs %v in the slice: %s", i, c.Slice, msg))
-				} else {
-					bad = append(bad, msg)
+					msg = fmt.Sprintf("input %d is given at several positions %v and its items arrive reordered (witness class dupchan-order): %s", i, c.Slice, msg)
 				}
+				bad = append(bad, msg)
 			}
 		}
 	}
